@@ -1,5 +1,7 @@
 #include "enum_type.h"
 #include "core.h"
+#include <queue>
+#include <unordered_set>
 
 namespace ratio
 {
@@ -17,16 +19,21 @@ namespace ratio
     }
 
     std::vector<item *> enum_type::get_all_instances() const noexcept
-    {
+    { // the values of this enum and of all the enums it (transitively) includes: each enum is visited once, so that enums including each other are harmless..
         std::vector<item *> c_instances;
-        for (const auto &i : instances)
-            c_instances.push_back(&*i);
-
-        for (const auto &es : enums)
+        std::unordered_set<const enum_type *> visited;
+        std::queue<const enum_type *> q;
+        q.push(this);
+        while (!q.empty())
         {
-            std::vector<item *> es_instances = es->get_all_instances();
-            c_instances.reserve(c_instances.size() + es_instances.size());
-            c_instances.insert(c_instances.cend(), es_instances.cbegin(), es_instances.cend());
+            const enum_type *c_enum = q.front();
+            q.pop();
+            if (!visited.insert(c_enum).second)
+                continue;
+            for (const auto &i : c_enum->instances)
+                c_instances.push_back(&*i);
+            for (const auto &es : c_enum->enums)
+                q.push(es);
         }
         return c_instances;
     }
